@@ -321,16 +321,27 @@ static void print_uint8_vector_base64_object(flatcc_json_printer_t *ctx, const v
         ctx->flush(ctx, 0);
     }
     while (ctx->p + len > ctx->pflush) {
-        /* Multiples of 4 output chars consumes exactly 3 bytes before final padding. */
-        k = (size_t)(ctx->pflush - ctx->p) & ~(size_t)3;
+        /*
+         * Multiples of 4 output chars consumes exactly 3 bytes before final padding.
+         * Round up so the chunk reaches pflush (spilling at most 3 chars into the
+         * reserve): otherwise the flush below is a no-op for fixed and dynamic
+         * buffers and the loop never advances.
+         */
+        k = ((size_t)(ctx->pflush - ctx->p) + 3) & ~(size_t)3;
+        if (k >= len) {
+            break;
+        }
         n = k * 3 / 4;
-        FLATCC_ASSERT(n > 0);
         src_len = k * 3 / 4;
         base64_encode((uint8_t *)ctx->p, data, 0, &src_len, unpadded_mode);
         ctx->p += k;
         data += n;
         data_len -= n;
         ctx->flush(ctx, 0);
+        if (ctx->p == ctx->pflush && ctx->error) {
+            /* The flush failed and left no room, see print_ex. */
+            return;
+        }
         len = base64_encoded_size(data_len, mode);
     }
     base64_encode((uint8_t *)ctx->p, data, 0, &data_len, mode);
